@@ -59,7 +59,14 @@ mut("c09_leaf_pack", "src/blob/index/bptree/serializer.rs", "            if rema
 mut("c09_go_right_le", "src/blob/index/bptree/core.rs", "        while offset + record_header_size < right_bound {", "        while offset + record_header_size <= right_bound {", ["C09"], "EQUIVALENT: last in-buffer header read from the buffer instead of the file")
 mut("c09_leftmost_early", "src/blob/index/bptree/core.rs", "        while offset > 0 {\n            offset = offset.saturating_sub(record_header_size);", "        while offset > record_header_size {\n            offset = offset.saturating_sub(record_header_size);", ["C09", "C01"], "get_leftmost stops one early")
 mut("c09_key_offset", "src/blob/index/bptree/node.rs", "            Ok(pos) => pos + 1,\n            Err(pos) => pos,\n        };\n        let offset = offsets_offset", "            Ok(pos) => pos,\n            Err(pos) => pos,\n        };\n        let offset = offsets_offset", ["C09"], "exact-key hit goes to the left child")
-mut("c09_min_amount", "src/blob/index/bptree/serializer.rs", "        let min_amount = (max_amount - 1) / 2 + 1;", "        let min_amount = (max_amount - 1) / 2;", ["C09"], "node grouping (equivalent unless layer sizes mismatch)")
+mut("c09_min_amount", "src/blob/index/bptree/serializer.rs", "        let min_amount = (max_amount - 1) / 2 + 1;", "        let min_amount = (max_amount - 1) / 2;", ["C09"], "EQUIVALENT: both layer passes use the same bounds")
+mut("c09_grouping_inconsistent", "src/blob/index/bptree/serializer.rs", """            let amount = std::cmp::min(max_amount, nodes_arr.len() - current - min_amount);
+            let nodes_portion = &nodes_arr[current..(current + amount)];
+            current += amount;
+            let compressed_node""", """            let amount = std::cmp::min(max_amount, nodes_arr.len() - current - min_amount - 1);
+            let nodes_portion = &nodes_arr[current..(current + amount)];
+            current += amount;
+            let compressed_node""", ["C09"], "upper layer computed with a different grouping than the nodes written")
 mut("c09_go_right_file_lt", "src/blob/index/bptree/core.rs", "        while offset + record_header_size <= leaves_end {", "        while offset + record_header_size < leaves_end {", ["C09"], "last header of the file never read by go_right_file")
 # ---- C10
 mut("c10_no_merge_parents", "src/filter/hierarchical.rs", """        while let Some(id) = parent {
@@ -74,6 +81,16 @@ mut("c10_bit_mod7", "src/filter/atomic_bitvec.rs", "        let mask = 1u8 << (b
 mut("c10_range_lt", "src/filter/range.rs", "        self.initialized && &self.min <= key && key <= &self.max", "        self.initialized && &self.min < key && key <= &self.max", ["C10", "C01"])
 mut("c10_bloom_offset", "src/blob/index/core.rs", "        let bloom_offset = size_of::<u64>() + range_buf.len();", "        let bloom_offset = range_buf.len();", ["C10"], "off-loaded probing reads 8 bytes early")
 mut("c10_default_flip", "src/filter/mod.rs", "        Self::NeedAdditionalCheck\n    }\n}\n\nimpl Add", "        Self::NotContains\n    }\n}\n\nimpl Add", ["C10"])
+# ---- C12
+mut("c12_no_header_sync", "src/blob/core.rs", "        self.file.write_append_all(buf.freeze()).await?;\n        self.file.fsyncdata().await?;", "        self.file.write_append_all(buf.freeze()).await?;", ["C12"])
+mut("c12_no_dump_sync", "src/blob/core.rs", """            self.fsyncdata()
+                .await
+                .with_context(|| format!("blob file dump failed: {:?}", self.name.as_path()))?;
+""", "", ["C12"], "index marked complete without syncing the blob")
+mut("c12_no_close_sync", "src/storage/core.rs", "                ablob.fsyncdata().await?;\n", "", ["C12"])
+mut("c12_should_try_ge", "src/storage/core.rs", "        dirty_bytes > self.config().max_dirty_bytes_before_sync()", "        dirty_bytes > self.config().max_dirty_bytes_before_sync() + 64", ["C12"], "threshold off by 64 bytes")
+mut("c12_synced_post_size", "src/io/unix/sync.rs", "               file_inner.synced_size.fetch_max(size, Ordering::SeqCst);", "               file_inner.synced_size.fetch_max(size.saturating_sub(1), Ordering::SeqCst);", ["C12"], "one byte always considered dirty: limit 0 syncs forever but harmless? (dirty accounting)")
+mut("c12_f7_revert", "src/storage/core.rs", "        self.inner.safe.read().await.fsyncdata().await\n    }", "        self.inner.fsyncdata().await\n    }", ["C12"], "reverts fix F7")
 # ---- C15
 mut("c15_count_from_keys", "src/blob/index/bptree/serializer.rs", "            let headers_len = self\n                .headers_btree\n                .iter()\n                .fold(0, |acc, (_k, v)| acc + v.len());", "            let headers_len = self\n                .headers_btree\n                .iter()\n                .fold(0, |acc, (_k, v)| acc + v.len().min(1));", ["C15", "C09"], "on-disk records_count from keys")
 mut("c15_disk_used_no_active", "src/storage/core.rs", "            result += ablob.read().await.disk_used();", "            result += 0 * ablob.read().await.disk_used();", ["C15"])
